@@ -45,6 +45,21 @@ impl Ctx {
 
 fn main() {
     let args: Vec<String> = std::env::args().collect();
+    if args.len() >= 3 && args[1] == "debug-glob" {
+        for p in &args[2..] {
+            let r = std::panic::catch_unwind(|| findutils::find::matchers::verif_hooks::glob_regex(p));
+            println!("{p:?} -> {r:?}");
+        }
+        return;
+    }
+    if args.len() >= 4 && args[1] == "debug-match" {
+        let p = &args[2];
+        for s in &args[3..] {
+            let r = std::panic::catch_unwind(|| findutils::find::matchers::verif_hooks::glob_matches(p, false, s));
+            println!("{p:?} ~ {s:?} -> {r:?}");
+        }
+        return;
+    }
     if args.len() < 5 {
         eprintln!("usage: fuh <PROP> <quick|thorough> <seed> <outdir>");
         std::process::exit(2);
